@@ -288,7 +288,7 @@ def rule_r3(ck, prog, rule='C16.R3'):
     g = Graph(prog, f, inline=None, sync_lambdas=False)
     hb = [p for p in g.points if p.n is not None and p.n['k'] == 'call' and strip_targs(p.n.get('c', '')).endswith('HexToBinary')]
     succ = [r for r in g.returns() if strip_casts(f, r.n['e'])['k'] == 'construct' and len(strip_casts(f, r.n['e']).get('args', [])) >= 4]
-    ok = len(hb) == 3 and bool(succ)
+    ok = len(hb) >= 1 and bool(succ)      # (three sequential calls, or one call in a loop over a table of fields)
     if ok:
         for h in hb:
             def hok(a, b, lab, _h=h):
@@ -297,7 +297,12 @@ def rule_r3(ck, prog, rule='C16.R3'):
                 core, pol = norm_cond(lab[1], lab[0])
                 return core == _h.n['i'] and (lab[2] if pol else not lab[2]) is True
             if not gated_by(g, succ, lambda ff, cn, _h=h: cn is _h.n)[0]:
-                ok = False
+                # the call sits in a loop over a table of fields (the walker cannot know that the table is not empty): what counts
+                # is that a failed decode never reaches the success return
+                from .common import after_result
+                fails = [r for r in g.returns() if r not in succ]
+                if not (fails and after_result(g, lambda ff, cn, _h=h: cn is _h.n, False, fails)[0]):
+                    ok = False
     ck.verdict(ok, rule, f, 'jaeger-decodes-checked', hb[0].n if hb else None, 'every HexToBinary result is checked' if ok else 'a Jaeger field is decoded without checking that it fits (over-long ids are silently zeroed or truncated)')
     fc = [n for n in f.nodes if n['k'] == 'call' and strip_targs(n.get('c', '')).endswith('SplitString')]
     ok = bool(fc) and any(comparison(f, n['i']) and comparison(f, n['i'])[0] == '!=' and
